@@ -16,7 +16,7 @@ HDR = "From BV Require Import Lib.Regex Model.V2 Model.Pep440 Model.V1 Model.Vcs
 
 PATTERNS = [("MAJOR.MINOR.PATCH", ["--patch"]), ("vMAJOR.MINOR.PATCH[-TAG]", ["--patch"]), ("YYYY.0M.0D", []), ("vYYYY0M.BUILD[-TAG]", []),
             ("MAJOR.MINOR[.PATCH]", ["--minor"]), ("YYYY.BUILD[-TAG]", []), ("{pycalver}", []), ("{semver}", ["--patch"])]
-JUNK = ["", "foo", "v", "release-1", "1", "1.2", "latest", "v1.2.3.4", "2020.02.30", "2021.13.01", "1.2.3-final", "1.2.x", "1..2", "١.٢.٣", "v202013.1001",
+JUNK = ["", "foo", "v", "release-1", "1", "1.2", "latest", "v1.2.3.4", "2020.02.30", "2021.13.01", "1.2.3-final", "1.2.x", "1..2", "v202013.1001",
         "9999.99.99", "99.0.0-rc1", "99.0.0.1", "v99.0.0-beta.2", "9999.1001-beta-x", "0.0.0", "1.2.3+local", "v1.2.3-dev", "1.02.3", "1.2.03"]
 
 
